@@ -126,6 +126,8 @@ impl ServerRef {
         &self,
         queries: &[WorkerTypeQuery],
     ) -> crate::Result<NewWorkerAllocationResponse> {
+        #[cfg(feature = "verif")]
+        if crate::verif::query_memo_on() { return crate::verif::memoized_worker_query(self, queries); }
         for query in queries {
             query.descriptor.validate(!query.partial)?;
         }
@@ -300,5 +302,16 @@ pub fn server_start(
 impl ServerRef {
     pub(crate) fn verif_new(core_ref: CoreRef, comm_ref: CommSenderRef) -> Self {
         ServerRef { core_ref, comm_ref }
+    }
+}
+
+/// Verification hooks (feature `verif`): access to the core/comm pair for the worker-query memo.
+#[cfg(feature = "verif")]
+impl ServerRef {
+    pub(crate) fn verif_core_ref(&self) -> &CoreRef {
+        &self.core_ref
+    }
+    pub(crate) fn verif_comm_ref(&self) -> &CommSenderRef {
+        &self.comm_ref
     }
 }
